@@ -30,6 +30,7 @@ class Hist:
     def gen_doc(self):
         r = self.r
         self.shadow = ["doc"]
+        self.with_ns = r.random() < 0.25
 
         def elem(depth, parent=0):
             name = r.choice(["r", "a", "b", "c"])
@@ -40,6 +41,17 @@ class Hist:
             self.par[me] = parent
             s = "<" + name
             used = set()
+            if depth == 0 and getattr(self, "with_ns", False):
+                s += " xmlns:p='urn:u1' xmlns:q='urn:u2'"
+            if getattr(self, "with_ns", False) and r.random() < 0.35:
+                # two attributes with one local part under different prefixes (only a parsed document can hold them:
+                # the DOM addresses attributes by local part)
+                for an in ("p:x", "q:x"):
+                    used.add(an)
+                    used.add("x")
+                    self.shadow.append("attr")
+                    s += ' %s="%s"' % (an, r.choice(["1", "2"]))
+                    self.shadow.append("text")
             for _ in range(r.choice([0, 0, 1, 2])):
                 an = r.choice(["x", "y", "id"])
                 if an in used:
@@ -58,7 +70,7 @@ class Hist:
                 for _ in range(r.choice([0, 1, 2, 3]) if depth < 2 else r.choice([0, 0, 1])):
                     k = r.random()
                     if k < 0.3 and not last_text:
-                        kids += r.choice(["t", "hello", "x y", "a]]", "]", "]]"])
+                        kids += r.choice(["t", "hello", "x y", "a]]", "]", "]]", "é界", "日本語"])
                         self.shadow.append("text")
                         self.kids[me].append(len(self.shadow) - 1)
                         self.par[len(self.shadow) - 1] = me
@@ -72,7 +84,7 @@ class Hist:
                         kids += "<?%s%s?>" % (r.choice(["pi", "tg"]), r.choice(["", " d"]))
                         self.shadow.append("pi")
                     elif k < 0.58:
-                        kids += "<![CDATA[%s]]>" % r.choice(["cd", "a<b", "", "]]x>", "]x]>"])
+                        kids += "<![CDATA[%s]]>" % r.choice(["cd", "a<b", "", "]]x>", "]x]>", "日本語", "é\U0001D4B3"])
                         self.shadow.append("cdata")
                     elif k < 0.64:
                         kids += r.choice(["&amp;", "&#65;"])
@@ -183,11 +195,24 @@ class Hist:
             n = len(self.shadow)
             self.shadow += ["text", "text"]
             return ["ct:" + enc2(a), "ap:%s:%s" % (self.h(e), self.h(n)), "ct:" + enc2(b), "ap:%s:%s" % (self.h(e), self.h(n + 1))]
+        if k < 0.88:
+            # an attribute NODE of another element (same name, same value) handed to removeAttributeNode / setAttributeNode
+            els = [h for h, kind in enumerate(self.shadow) if kind == "elem"]
+            if len(els) >= 2:
+                e1, e2 = r.sample(els, 2)
+                n = len(self.shadow)
+                self.shadow += ["attr", "attr"]
+                nm, v = r.choice(["id", "k"]), r.choice(["1", "v"])
+                return ["sa:%s:%s:%s" % (self.h(e1), nm, v), "sa:%s:%s:%s" % (self.h(e2), nm, v),
+                        "ga:%s:%s" % (self.h(e1), nm), "ga:%s:%s" % (self.h(e2), nm),
+                        r.choice(["ran:%s:%s", "san:%s:%s"]) % (self.h(e1), self.h(n + 1)), "ran:%s:%s" % (self.h(e2), self.h(n + 1))]
         # deleting exactly the characters that keep a forbidden sequence apart
         cs = [h for h, kind in enumerate(self.shadow) if kind in ("comment", "cdata")]
         if cs:
             c = r.choice(cs)
-            return [r.choice(["dd:%s:2:1", "dd:%s:3:1", "dd:%s:1:1", "rd:%s:2:1:", "rd:%s:2:1:-", "dd:%s:2:2"]) % self.h(c)]
+            tmpl = r.choice(["dd:H:2:1", "dd:H:3:1", "dd:H:1:1", "rd:H:2:1:", "rd:H:2:1:-", "dd:H:2:2", "rd:H:2:1:y", "rd:H:3:M:d",
+                             "id:H:2:x", "id:H:3:" + enc2("é"), "dd:H:2:1", "st:H:2"])
+            return [tmpl.replace("H", self.h(c), 1)]
         return []
 
     def op(self):
@@ -236,7 +261,8 @@ class Hist:
         if k < 0.66:
             return "rm:%s:%s" % (self.h(self.pick(containers)), self.h(self.pick(leafs)))
         if k < 0.72:
-            return "sa:%s:%s:%s" % (self.h(self.pick(("elem",))), enc2(r.choice(["x", "y", "id", "k"]) if r.random() > 0.1 else self.name()),
+            names = ["x", "y", "id", "k"] + (["p:x", "q:x", "q:x", "p:y"] if getattr(self, "with_ns", False) else [])
+            return "sa:%s:%s:%s" % (self.h(self.pick(("elem",))), enc2(r.choice(names) if r.random() > 0.1 else self.name()),
                                     enc2(self.data()))
         if k < 0.75:
             return "ra:%s:%s" % (self.h(self.pick(("elem",))), enc2(r.choice(["x", "y", "id", "k", "zz"])))
